@@ -399,7 +399,9 @@ Definition yaml_entry (id : string) (v : yval) : res reg := bind (value_unpack i
     - "0x"/"0X" + alphanumerics: an integer if the rest is a non-empty hexadecimal number
       below 2^64 (strconv.ParseInt/ParseUint base 0), otherwise the string;
     - decimal digits without a leading zero: an integer below 2^64, a float from there on;
-    - "base64:" + non-empty text over the base64 alphabet and '=': the string. *)
+    - "base64:" + non-empty text over the base64 alphabet and '=': the string;
+    - nothing at all, ~, null / Null / NULL, true / false in their three spellings: no integer
+      and no string ([YOther]). *)
 Definition is_digit (c : ascii) : bool := let n := N_of_ascii c in (48 <=? n) && (n <=? 57).
 Definition is_alnum (c : ascii) : bool :=
   let n := N_of_ascii c in
@@ -423,6 +425,14 @@ Definition hex_prefixed (s : string) : option string :=
   end.
 Definition is_empty (s : string) : bool := match s with EmptyString => true | _ => false end.
 
+(** the spellings of null (an empty value, ~, null) and of the booleans: the decoder hands
+    over nil / a bool, which valueUnpack refuses ("unknown value type") *)
+Open Scope string_scope.
+Definition null_words : list string := [""; "~"; "null"; "Null"; "NULL"].
+Definition bool_words : list string := ["true"; "True"; "TRUE"; "false"; "False"; "FALSE"].
+Close Scope string_scope.
+Definition in_words (s : string) (l : list string) : bool := existsb (String.eqb s) l.
+
 Definition yaml_plain (s : string) : option yval :=
   match hex_prefixed s with
   | Some r =>
@@ -433,6 +443,7 @@ Definition yaml_plain (s : string) : option yval :=
         end
       else None
   | None =>
+      if in_words s null_words || in_words s bool_words then Some YOther else
       match s with
       | EmptyString => None
       | String c r =>
